@@ -158,6 +158,14 @@ def check_component_coverage(chk, v, g, mc, what, variant):
             off = toN(o0)
             terms.append(({"var": u, "lo": off, "cmp": "<", "hi": sym.add(off, I(1)), "step": I(1), "l": c_["line"]}, u, 1))
     if not mc:
+        # nothing of the expected kind -- but the function may update the result some other way (its own transform pipeline, helpers):
+        # that is a shape this rule does not model, not a violation
+        ps_all, _ = summ.pieces(v, g, hooks=NOINLINE)
+        touches = [p_ for p_ in ps_all if (p_["kind"] == "call" and any(isinstance(a_, tuple) and sym.root_of(a_) == sym.sym(r) for a_ in p_["args"] if a_ is not None))
+                   or (p_["kind"] == "store" and sym.root_of(p_["lv"]) == sym.sym(r) and not (p_["lv"][0] == "fld" and p_["lv"][2] == "current_variance"))]
+        if touches:
+            raise AnalysisBroken("%s: the result is updated by %s at line %s, not by the multiply-accumulate primitive" % (
+                g.name, touches[0].get("name", "a store"), touches[0]["line"]))
         bad1.append("no component is accumulated")
     det1 = ""
     if not bad1:
